@@ -10,10 +10,12 @@ AUDIT = 'Audit/C03.lean'
 ANCHORS = ['txtorcon/torcontrolprotocol.py', 'txtorcon/util.py']
 RULE = ('sessions as in C01/C02 (commands, replies, events, listeners) in which the connection is lost at a random point — between '
         'messages, mid-line, mid-reply, mid-data-block — with 0..N commands queued, clean or unclean reason, followed by further '
-        'submissions and when_disconnected() requests on either side of the loss; additionally every byte offset of each of the first '
+        'submissions and when_disconnected() requests on either side of the loss, some of them made from inside a disconnect notification; command texts include braces and percent signs; additionally every byte offset of each of the first '
         'sessions is used as a cut point. non-trivial = loss with at least one command unanswered or a submission after the loss; '
         'distinct = distinct op lists')
-TRUSTED = ["SingleObserver and Deferred firing as observed through passive recording callbacks"]
+TRUSTED = ["SingleObserver and Deferred firing as observed through passive recording callbacks",
+           "a request made from inside a disconnect notification is presented to the model and the spec as the request that follows the op "
+           "causing the notification; outputs of both are compared as one (sorted) group"]
 ASSUMPTIONS = ["no bytes are delivered after connectionLost (Twisted guarantees this)"]
 
 
@@ -29,8 +31,8 @@ def tagger(case, impl):
     if li is None:
         tags.append('no-loss')
     else:
-        before = sum(1 for op in ops[:li] if op[0] == 'submit')
-        after = sum(1 for op in ops[li:] if op[0] == 'submit')
+        before = sum(1 for op in ops[:li] if op[0] in ('submit', 'resubmit'))
+        after = sum(1 for op in ops[li:] if op[0] == 'submit' or (op[0] == 'nested' and op[2][0] == 'submit'))
         disc = sum(1 for g in impl for o in g[1] if o.startswith('discerr'))
         lostg = next((g for g in impl if g[0] == 'lost'), ['lost', []])
         pending_at_loss = sum(1 for o in lostg[1] if o.startswith('discerr'))
@@ -38,7 +40,8 @@ def tagger(case, impl):
         tags += ['pending_at_loss=%d' % min(pending_at_loss, 3), 'submits_after=%d' % min(after, 3),
                  'clean' if ops[li][1] else 'unclean', 'cut-midline' if midline else 'cut-at-boundary',
                  'whendisc_before=%d' % min(2, sum(1 for op in ops[:li] if op[0] == 'whendisc')),
-                 'whendisc_after=%d' % min(2, sum(1 for op in ops[li:] if op[0] == 'whendisc'))]
+                 'whendisc_after=%d' % min(2, sum(1 for op in ops[li:] if op[0] == 'whendisc')),
+                 'nested=%d' % min(2, sum(1 for op in ops if op[0] == 'nested'))]
         nontrivial = pending_at_loss >= 1 or after >= 1
     return tags, nontrivial
 
@@ -59,7 +62,8 @@ def corpus():
 
 def cut_variants(case, rng, max_cuts):
     """the same session cut by a connection loss at byte offsets of its stream"""
-    ops = [op for op in case['ops'] if op[0] != 'lost']
+    nested = [op for op in case['ops'] if op[0] == 'nested']
+    ops = [op for op in case['ops'] if op[0] not in ('lost', 'nested')]
     offsets = []
     for i, op in enumerate(ops):
         if op[0] == 'bytes':
@@ -74,6 +78,9 @@ def cut_variants(case, rng, max_cuts):
             tls[len(new_ops)] = list(case['tls'].get(i, []))[:head.count('\n')]
             new_ops.append(['bytes', head])
         new_ops.append(['lost', rng.random() < 0.5])
+        for op in nested:
+            if any(o[0] == 'whendisc' and o[1] == op[1] for o in new_ops):
+                new_ops.append(op)
         nid = 5000
         for _ in range(rng.randint(0, 3)):
             nid += 1
@@ -86,7 +93,7 @@ def gen_cases(rng, tier):
     for k in range(n):
         ev = rng.random() < 0.5
         case = ctl.normalise_case(ctl.gen_session(rng, n_steps=rng.choice([15, 30, 50]), events=ev, listeners=ev, loss=True,
-                                                  acts_kinds=('r', 'x', 'rm', 'ad')))
+                                                  acts_kinds=('r', 'x', 'rm', 'ad'), reenter=rng.random() < 0.3))
         yield ctlprop.to_json_case(case)
         if k < (40 if tier == 'quick' else 600):
             for v in cut_variants(case, rng, 8 if tier == 'quick' else 10 ** 6):
